@@ -16,6 +16,11 @@ our own for the LOOP-FREE subset those impls are written in:
                   pop, swap, remove; bounds syntactically): state (array, length, error) threaded through the
                   statements, primitives by the contracts proved in units/u5_array, specs = reference list model.
   arrays.py       (C26) plain-python side: obligations, codegen shape checks, Python list model, replay, fidelity.
+  vcloops.py      (C26, BOUNDED) the members WITH loops (clear, find, contains, filled, Clone for array, iteration = Iterable for
+                  array + Iterator for ArrayIterator): the parser's `loops` mode + a forking symbolic interpreter over the parsed real
+                  text with a heap of objects; concrete list lengths 0..N (4 quick / 6 thorough), symbolic elements, loops unrolled
+                  at most N+1 times with an unwinding assertion; one Z3 query per path against the list model.  Never "proved".
+  loopmodel.py    the list model of those members in plain Python (from the property); arrays_loops.py: obligations + replay.
 
 This module is imported by tools/check.py under plain python3 and talks to vcgen.py through a
 subprocess that prints JSON.  ABRA_REPO selects the tree that is read (default /repo).
@@ -30,6 +35,7 @@ import engine as E
 import abra_cli
 from . import laws as LW
 from . import arrays as AR
+from . import arrays_loops as AL
 
 HERE = os.path.dirname(os.path.abspath(__file__))
 UNIT = "U16-prelude"
@@ -55,11 +61,20 @@ def prelude_path():
     return os.environ.get("U16_PRELUDE") or os.path.join(repo(), PRELUDE_REL)
 
 
-def run_vcgen(tier="quick", only=None, scratch=None, prelude=None):
+LOOP_BOUND = dict(quick=4, thorough=6)
+
+
+def run_vcgen(tier="quick", only=None, scratch=None, prelude=None, loops=0, only_loops=False, array_laws=0):
     path = prelude or prelude_path()
     if not os.path.isfile(path):
         raise E.Undecided("prelude not found: %s" % path)
     cmd = [PYVT, os.path.join(HERE, "vcgen.py"), "--prelude", path, "--tier", tier]
+    if loops:
+        cmd += ["--loops", str(loops)]
+    if array_laws:
+        cmd += ["--array-laws", str(array_laws)]
+    if only_loops:
+        cmd += ["--only-loops"]
     if scratch:
         cmd += ["--scratch", scratch]
     if only:
@@ -229,10 +244,14 @@ def run(tier="quick"):
     sc = E.Scratch("u16")
     try:
         t0 = time.time()
-        out = run_vcgen(tier, scratch=sc.path)
+        nloops = LOOP_BOUND.get(tier, 4) if AL.enabled() else 0      # the loop obligations count for C26 only
+        nlaws = LOOP_BOUND.get(tier, 4) if AL.enabled("C24") else 0   # Equal / Hash for array<T> (bounded) count for C24 only
+        out = run_vcgen(tier, scratch=sc.path, loops=nloops, array_laws=nlaws)
         obs = [to_obligation(r) for r in out["obligations"]]
         obs += codegen_obligations()
         obs += AR.obligations(out.get("array"))       # C26: loop-free `extend array<T>` members vs the list model
+        obs += AL.obligations(out.get("loops"))       # C26, BOUNDED: clear/find/contains/filled/clone/iteration
+        obs += AL.obligations(out.get("array_laws"))  # C24, BOUNDED: laws of Equal / Hash for array<T>
         cg = AR.codegen_obligations()
         lost = [o.id for o in cg if o.status != E.DISCHARGED]
         if lost:
@@ -243,11 +262,16 @@ def run(tier="quick"):
                     o.detail = "the lowering this proof relies on is not established: %s" % ", ".join(lost)
         obs += cg
         canary_ok = (all(c["status"] == "failed" for c in out["canaries"])
-                     and all(c["status"] == "failed" for c in (out.get("array") or {}).get("canaries", [])))
+                     and all(c["status"] == "failed" for c in (out.get("array") or {}).get("canaries", []))
+                     and all(c["status"] == "failed" for c in (out.get("loops") or {}).get("canaries", []))
+                     and all(c["status"] == "failed" for c in (out.get("array_laws") or {}).get("canaries", [])))
         extra = {}
         if tier == "thorough":
             extra["fidelity_vs_real_cli"] = fidelity()
             extra["mutation_selftest"] = selftest()
+            if nloops:
+                extra["loops_fidelity_vs_real_cli"] = AL.fidelity(
+                    [o.id.split(".")[3] for o in obs if o.backend == AL.BACKEND and o.status == E.DISCHARGED])
         info = dict(
             assumptions=[
                 "U16 tuples: " + TUPLE_CONTRACT,
@@ -258,15 +282,20 @@ def run(tier="quick"):
                 "U16: `==` on bool is the EqualBool VM opcode, taken to be boolean equality; int intrinsics equal_int, less_than_int, ... are "
                 "the mathematical comparisons of the i64 operands and wrapping_add / wrapping_mul are arithmetic modulo 2^64 "
                 "(their VM arms are verified in U1; only used for `Hash for int/bool/void/tuples` and never needed beyond being functions)",
-                "U16: arrays (`implement Equal/Hash for array<T>`) and `Hash for string` contain `for` loops: outside the loop-free "
-                "subset, NOT claimed by this unit",
+                "U16: arrays (`implement Equal/Hash for array<T>`) contain `for` loops: outside the loop-free subset; their laws are decided ONLY "
+                "by the bounded-unrolling obligations C24.prelude.Equal.array.* / C24.prelude.Hash.array.consistent (array lengths <= %d), "
+                "never for all lengths; `Hash for string` (FNV-1a loop over bytes) is NOT claimed by this unit" % (nlaws or LOOP_BOUND["quick"]),
                 "U16 arrays (C26): " + AR.PRIM_NOTE + "; the list is shorter than 2^62 elements; `self` is the only array in scope (no aliasing: "
                 "elements are values of an arbitrary type T, modelled by an uninterpreted sort); a runtime error ends the program",
-                "U16 arrays (C26): array.clear, filled, find, contains, sort, sort_by, sort_by_key (loops) are refused by the parser and NOT claimed",
-            ],
+                "U16 arrays (C26): array.sort, sort_by, sort_by_key (loops, lambdas) are refused by the parser and NOT claimed; clear, find, contains, "
+                "filled, Clone for array and iteration are covered ONLY by the bounded-unrolling obligations C26.prelude.array.<member>.model of "
+                "vcloops.py (list lengths <= %d), never for all lengths; the unbounded (loop-free) evaluator still refuses them" % (nloops or LOOP_BOUND["quick"]),
+            ] + list((out.get("loops") or {}).get("assumptions", []))
+            + [a for a in (out.get("array_laws") or {}).get("assumptions", []) if a not in (out.get("loops") or {}).get("assumptions", [])],
             trusted_base=[
                 "units/u16_prelude/abra_subset.py: Abra-subset lexer/parser written to mirror abra_core/src/parse.rs (refuses anything else)",
                 "units/u16_prelude/vcgen.py: symbolic evaluator (about 250 lines of Python)",
+                "units/u16_prelude/vcloops.py: forking symbolic interpreter for the loop members (about 350 lines of Python) + the `loops` mode of the parser",
                 "z3 %s (python bindings of the tooling venv)%s" % (out.get("z3"), "; cvc5 cross-check of every query" if tier == "thorough" else ""),
                 "heck::ToSnakeCase naming of intrinsics (IntrinsicOperation::name)",
             ],
@@ -274,7 +303,9 @@ def run(tier="quick"):
             notes=dict(prelude=out.get("prelude"), prelude_sha=out.get("prelude_sha"), canaries=out["canaries"],
                        canary_all_refuted=canary_ok, vcgen=out.get("notes"), wall_s=round(time.time() - t0, 2),
                        syntactic_obligations=[o.id for o in obs if "syntactic" in o.backend],
-                       array_canaries=(out.get("array") or {}).get("canaries"), array_refused=((out.get("array") or {}).get("notes") or {}).get("refused"),
+                       array_canaries=(out.get("array") or {}).get("canaries"),
+                       loop_canaries=(out.get("loops") or {}).get("canaries"), loop_bound=nloops or None,
+                       array_law_canaries=(out.get("array_laws") or {}).get("canaries"), array_law_bound=nlaws or None, array_refused=((out.get("array") or {}).get("notes") or {}).get("refused"),
                        **extra),
         )
         return obs, info
@@ -337,6 +368,22 @@ EXPECT = {'equal': lambda c: c == 0, 'less_than': lambda c: c < 0, 'less_than_or
 def replay(ob):
     """Turn the solver's model into an Abra program, run it on the REAL CLI (tools/abra_cli.py) and judge
     the printed atoms against the law in Python.  True = the real CLI violates the law as Z3 says."""
+    if re.fullmatch(r'C26\.prelude\.array\.(%s)\.model' % "|".join(AL.LM.MEMBERS), ob.id):
+        def rerun_loops(oid_):
+            lp = run_vcgen("quick", loops=LOOP_BOUND["quick"], only_loops=True).get("loops") or {}
+            for r in lp.get("obligations", []):
+                if r["id"] == oid_ and r["status"] == "failed":
+                    return r.get("cex")
+            return None
+        return AL.replay(ob, rerun_loops)
+    if re.fullmatch(r'C24\.prelude\.(Equal|Hash)\.array\.\w+', ob.id):
+        def rerun_laws(oid_):
+            lp = run_vcgen("quick", array_laws=LOOP_BOUND["quick"], only_loops=True).get("array_laws") or {}
+            for r in lp.get("obligations", []):
+                if r["id"] == oid_ and r["status"] == "failed":
+                    return r.get("cex")
+            return None
+        return AL.replay_law(ob, rerun_laws)
     if ob.id.startswith("C26."):
         def rerun(oid_):
             arr = run_vcgen("quick").get("array") or {}
